@@ -108,6 +108,13 @@ M = [
     ("m73", "C04", "src/production/connection_pool.rs", "        buf.clear();\n        if buf.capacity() <= self.capacity * 2 {", "        if buf.capacity() <= self.capacity * 2 {", r"R04\.9"),
     ("m74", "C05", "src/production/connection_optimized.rs", "                                            .execute(&Command::Get(key.clone()))\n                                            .await;\n                                        if !resp_values_equal(&current, old_value) {",
      "                                            .execute(&Command::Exists(vec![key.clone()]))\n                                            .await;\n                                        if !resp_values_equal(&current, old_value) {", r"R05\.8"),
+    ("m75", "C15", "src/production/connection_optimized.rs", "        // Header is 14 bytes: \"*2\\r\\n$3\\r\\nGET\\r\\n\"\n        const HEADER_LEN: usize = 14;\n\n        let buf = &self.buffer[..];\n        if buf.len() < HEADER_LEN + 1 {",
+     "        // Header is 14 bytes: \"*2\\r\\n$3\\r\\nGET\\r\\n\"\n        const HEADER_LEN: usize = 14;\n\n        let buf = &self.buffer[..];\n        if buf.len() < HEADER_LEN {", r"R15\.11"),
+    ("m76", "C10", "src/streaming/wal.rs", "        if data.len() < WAL_HEADER_SIZE {", "        if data.len() < 4 {", r"R10\.7"),
+    ("m77", "C14", "src/replication/gossip.rs", "#[derive(Debug, Clone, Serialize, Deserialize)]\npub enum GossipMessage {", "#[derive(Debug, Clone, Serialize, Deserialize)]\n#[serde(tag = \"type\")]\npub enum GossipMessage {", r"R14\.11"),
+    ("m78", "C10", "src/streaming/wal.rs", "        Ok(all_entries)\n", "        all_entries.sort_by_key(|e| e.timestamp);\n        Ok(all_entries)\n", r"R10\.8"),
+    ("m79", "C11", "src/replication/state/shard_state.rs", "    pub fn apply_remote_delta(&mut self, delta: ReplicationDelta) {\n", "    pub fn apply_remote_delta(&mut self, delta: ReplicationDelta) {\n        if delta.source_replica == self.replica_id && delta.value.timestamp.time < self.lamport_clock.time {\n            return;\n        }\n", r"R11\.7"),
+    ("m80", "C08", "src/replication/state/shard_state.rs", "    pub fn drain_pending_deltas(&mut self) -> Vec<ReplicationDelta> {", "    pub fn reset(&mut self) {\n        *self = ShardReplicaState::new(self.replica_id, self.consistency_level);\n    }\n\n    pub fn drain_pending_deltas(&mut self) -> Vec<ReplicationDelta> {", r"R08\.1:.*assign-through-owner-ref"),
 ]
 
 
